@@ -107,6 +107,15 @@ fn gen(rng: &mut Rng, n: usize) -> Vec<Case> {
         out.push(script(vec![op("acq", &[b"1", b"f", b".", &p]), op("drop", &[b"1"])]));
         out.push(script(vec![op("mkd", &[b"d"]), op("acq", &[b"1", b"f", b"d", &p]), op("wr", &[b"1", b"x"]), op("commit", &[b"1"])]));
     }
+    // boundaries spelled differently from the ancestor of the lock path they denote; the boundary (and
+    // the sandbox root above it) is empty once the created directories are gone
+    for bnd in [&b"a/"[..], b"a//", b"a/.", b"./a", b"a/./", b"./", b".//", b"./.", b"a/b/..", b"."] {
+        for res in [&b"a/d/x"[..], b"a/d/e/x", b"a/x"] {
+            out.push(script(vec![op("acq", &[b"1", b"f", bnd, res]), op("drop", &[b"1"])]));
+            out.push(script(vec![op("mkd", &[b"a"]), op("acq", &[b"1", b"m", bnd, res]), op("drop", &[b"1"])]));
+            out.push(script(vec![op("acq", &[b"1", b"f", bnd, res]), op("wr", &[b"1", b"x"]), op("commit", &[b"1"])]));
+        }
+    }
     // a file in the way of a directory, a directory in the way of the resource / of the lock
     out.push(script(vec![op("put", &[b"a", b"x"]), op("acq", &[b"1", b"f", b".", b"a/b"]), op("acq", &[b"2", b"f", b".", b"a/b/c"])]));
     out.push(script(vec![op("mkd", &[b"r"]), op("acq", &[b"1", b"f", b".", b"r"]), op("commit", &[b"1"]), op("drop", &[b"1"])]));
@@ -163,10 +172,11 @@ fn gen(rng: &mut Rng, n: usize) -> Vec<Case> {
                 0..=6 => {
                     let p = rng.pick(&pool).clone();
                     let kind: &[u8] = if rng.chance(1, 4) { b"m" } else { b"f" };
-                    let bnd: &[u8] = match rng.below(8) {
+                    let bnd: &[u8] = match rng.below(9) {
                         0 => b"",
                         1 => b"a",
                         2 => b"a/b",
+                        3 => *rng.pick(&[&b"a/"[..], b"a//", b"a/.", b"./a", b"a/b/", b"a/./b", b"a//b", b"./", b".//", b"./."]),
                         _ => b".",
                     };
                     let name = if rng.chance(1, 10) { "acqrel" } else { "acq" };
@@ -323,12 +333,12 @@ impl Sandbox {
         }
         let mut m = BTreeMap::new();
         walk(&self.base, b"", &mut m);
-        m.remove(&b"R"[..]);
         m
     }
     fn listing(&self) -> String {
         self.snapshot()
             .iter()
+            .filter(|(k, _)| k.as_slice() != b"R")
             .map(|(k, v)| match v {
                 None => format!("{}:d", hexs(k)),
                 Some(c) => format!("{}:f:{}", hexs(k), hexs(c)),
@@ -428,6 +438,32 @@ fn diff(
         }
     }
     d
+}
+
+/// The entry below the base directory a path names, by lexical normalisation (no symlinks here; every
+/// intermediate directory exists when this is used): drops empty and `.` components, `..` pops.
+/// None when the path is not below the base directory.
+fn norm_rel(sb: &Sandbox, p: &Path) -> Option<Vec<u8>> {
+    let b = p.as_os_str().as_bytes();
+    let base = sb.base.as_os_str().as_bytes();
+    if !(b.starts_with(base) && b.get(base.len()) == Some(&b'/')) {
+        return None;
+    }
+    let mut stack: Vec<&[u8]> = Vec::new();
+    for c in b[base.len() + 1..].split(|x| *x == b'/') {
+        match c {
+            b"" | b"." => {}
+            b".." => {
+                stack.pop()?;
+            }
+            c => stack.push(c),
+        }
+    }
+    if stack.is_empty() {
+        None
+    } else {
+        Some(stack.join(&b'/'))
+    }
 }
 
 fn rel_to_base(sb: &Sandbox, p: &Path) -> Option<Vec<u8>> {
@@ -647,8 +683,8 @@ fn run_script(c: &Case, check: bool) -> Report {
                                         rep.fail("commit-path-differs", format!("{:?} vs {:?}", String::from_utf8_lossy(&h.resource), p));
                                     }
                                     let after = sb.snapshot();
-                                    let lrel = rel_to_base(&sb, &lp);
-                                    let rrel = rel_to_base(&sb, &p);
+                                    let lrel = norm_rel(&sb, &lp);
+                                    let rrel = norm_rel(&sb, &p);
                                     if let (Some(lrel), Some(rrel)) = (lrel, rrel) {
                                         // exactly: lock file gone, resource = what the lock file held
                                         let lock_content = before.get(&lrel).cloned().flatten();
@@ -810,8 +846,26 @@ fn check_drop(
     rep.nontrivial = true;
     rep.classes.push("drop");
     let after = sb.snapshot();
-    let Some(lrel) = rel_to_base(sb, lp) else {
-        // non-normalised path: only "no file is modified or created, the lock file is gone"
+    // whatever is dropped: the sandbox root, the boundary directory and everything above them stay
+    if !sb.root.is_dir() || !sb.base.is_dir() {
+        rep.fail("drop-removes-boundary-or-above", format!("sandbox root gone after dropping {:?}", lp));
+    }
+    let brel = boundary.and_then(|b| norm_rel(sb, b));
+    let boundary_dotdot = boundary.map(|b| count_dotdot(b.as_os_str().as_bytes()) > 0).unwrap_or(false);
+    let lock_dotdot = count_dotdot(lp.as_os_str().as_bytes()) > 0;
+    if let Some(br) = &brel {
+        if before.get(br) == Some(&None) && after.get(br) != Some(&None) {
+            // a resource spelled `<boundary>/../<boundary>/x` is a separate, known class (findings.txt)
+            rep.fail(
+                if lock_dotdot || boundary_dotdot { "dotdot-resource-removes-boundary" } else { "drop-removes-boundary-or-above" },
+                format!("boundary {:?} gone after dropping {:?}", boundary, lp),
+            );
+        }
+    }
+    let clean_lock = rel_to_base(sb, lp).is_some();
+    let lexical = clean_lock && !boundary_dotdot;
+    let Some(lrel) = norm_rel(sb, lp) else {
+        // a lock path leaving the base directory: only "no file is modified or created, the lock file is gone"
         for (k, a, b) in diff(before, &after) {
             match (&a, &b) {
                 (Some(Some(_)), None) | (Some(None), None) => {}
@@ -823,12 +877,6 @@ fn check_drop(
         }
         return;
     };
-    let brel = boundary.and_then(|b| {
-        let b = b.as_os_str().as_bytes();
-        // boundary R/. is written "<root>/."
-        let b = b.strip_suffix(b"/.").unwrap_or(b);
-        rel_to_base(sb, Path::new(OsStr::from_bytes(b)))
-    });
     for (k, a, b) in diff(before, &after) {
         if k == lrel && b.is_none() && !tampered {
             continue;
@@ -838,7 +886,10 @@ fn check_drop(
             if let Some(br) = &brel {
                 let below_boundary = k.len() > br.len() && k.starts_with(br) && k[br.len()] == b'/';
                 let above_lock = lrel.len() > k.len() && lrel.starts_with(&k) && lrel[k.len()] == b'/';
-                if below_boundary && above_lock {
+                // never the boundary itself or a directory above it, however the boundary is spelled
+                let boundary_or_above = *br == k || (br.len() > k.len() && br.starts_with(&k) && br[k.len()] == b'/');
+                // with `..` in the lock path or the boundary, "below" is not a lexical notion
+                if above_lock && !boundary_or_above && (below_boundary || !lexical) {
                     continue;
                 }
             }
@@ -848,12 +899,14 @@ fn check_drop(
         }
         rep.fail("drop-changes-entries", format!("{:?}: {:?} -> {:?}", String::from_utf8_lossy(&k), a, b));
     }
-    if !tampered && after.contains_key(&lrel) {
+    // (a lock path through `dir/..` cannot be unlinked once somebody removed `dir`: judge it by its own spelling)
+    let still_there = if clean_lock { after.contains_key(&lrel) } else { std::fs::symlink_metadata(lp).is_ok() };
+    if !tampered && still_there {
         rep.fail("drop-leaves-lock", format!("{:?}", lp));
     }
     // the resource itself is untouched: covered by the diff above (any change of it is reported)
     let _ = resource;
-    if brel.is_some() {
+    if brel.is_some() && lexical {
         for d in created_dirs {
             if after.contains_key(d) {
                 let prefix = {
